@@ -13,7 +13,18 @@ HOSTILE = [b"contract Broken { function (", b"\x00\x9f\x92\x96\x00\xff\xfe\n\x00
 
 def contents():
     d = os.path.join(ROOT, "corpus", "dirwalk")
-    return {c: open(os.path.join(d, c + ".sol"), "rb").read() for c in ("c1", "c2", "c3", "c4", "c5", "c6", "c8", "c9", "c10")}
+    m = {c: open(os.path.join(d, c + ".sol"), "rb").read() for c in ("c1", "c2", "c3", "c4", "c5", "c6", "c8", "c9", "c10", "c11")}
+    # re-laid-out copies: the same words, the line breaks elsewhere
+    m["c1r"] = relaid(m["c1"])
+    m["c2r"] = relaid(m["c2"])
+    return m
+
+
+def relaid(data):
+    """The same words with other line breaks (a reformatted copy): a break after every `(`-free `{` and before `returns`."""
+    t = data.decode("utf-8")
+    t = t.replace(" returns ", "\n        returns ").replace("{ function", "{\n    function").replace("; }", ";\n}").replace(" = ", " =\n            ")
+    return t.encode("utf-8")
 
 
 def eligible(name):
